@@ -23,7 +23,7 @@ LEVEL = "exploration"
 RULE = ("scenario = 1..3 producers x 1..10 items each (typed messages of the four envelope classes + legacy class, plain dicts, "
         "pre-serialised strings, unserialisable objects) x child read behaviour (eager/slow/stall windows) x pipe capacity x close instant; "
         "non-trivial = a send blocked on back-pressure, or an unserialisable item preceded a serialisable one, or >= 2 producers interleaved")
-PROBES = ["value_rejected_by_fast_json_backend", "frame_over_64k", "inbound_batch_rejected_during_writes", "stdin_send_blocked", "unserialisable_before_valid", "producers_interleaved", "payload_with_line_breaks", "closed_while_backlog"]
+PROBES = ["child_closed_stdout_keeps_reading", "unencodable_string_item", "value_rejected_by_fast_json_backend", "frame_over_64k", "inbound_batch_rejected_during_writes", "stdin_send_blocked", "unserialisable_before_valid", "producers_interleaved", "payload_with_line_breaks", "closed_while_backlog"]
 TIERS = {"quick": {"runs": 15000, "wall": 45.0}, "thorough": {"runs": 800000, "wall": 560.0}}
 ASSUMPTIONS = [
     "order 'sent' = order in which the (real, FIFO) write stream accepted the items",
@@ -34,7 +34,7 @@ STUB = ["child process and its stdin pipe: FakeProcess (capacity / drain semanti
 SHRINK_LISTS = ["items"]
 
 TEXTS = ["plain", "line\nbreak", "cr\rlf\r\n", "ls\u2028ps\u2029nel\u0085", "nul\u0000", "q\"uote\\back", "\U0001F600 astral", "é€", ""]
-UNSER = ["object", "set_in_dict", "bytes", "circular", "typed_with_object", "int_item", "none_item"]
+UNSER = ["object", "set_in_dict", "bytes", "circular", "typed_with_object", "int_item", "none_item", "str_lone_surrogate", "str_pretty_escaped_surrogate"]
 
 
 def _gen_item(rng, k):
@@ -84,8 +84,10 @@ def generate(rng: random.Random, tier: str) -> dict:
     rng.shuffle(items)
     read_mode = rng.choice(["eager", "eager", "slow", "slow", "stall"])
     fault = None
+    closes_stdout = None
     if rng.random() < 0.12:
         fault = {"kind": rng.choice(["child_closes_stdin", "child_exits"]), "t": rng.randrange(0, 120)}
+    closes_stdout = None if fault else (rng.randrange(0, 60) if rng.random() < 0.12 else None)
     read_bytes = rng.choice([1, 7, 64, 300])
     read_every = rng.choice([1, 2, 10])
     if any(it.get("big") for it in items):
@@ -94,12 +96,14 @@ def generate(rng: random.Random, tier: str) -> dict:
         read_every = 1
     version = rng.choice([None, None, "2025-06-18", "2025-03-26"])
     inbound = [{"t": rng.randrange(0, 300), "hops": rng.choice([0, 1, 2, 3])} for _ in range(rng.choice([0, 0, 1, 2, 4]))] if version == "2025-06-18" else []
-    return {"v": 1, "version": version, "inbound_batches": inbound, "items": items, "read_mode": read_mode, "read_every": read_every, "read_bytes": read_bytes,
+    return {"v": 1, "child_closes_stdout_at": closes_stdout if fault is None else None, "version": version, "inbound_batches": inbound, "items": items, "read_mode": read_mode, "read_every": read_every, "read_bytes": read_bytes,
             "capacity": rng.choice([1, 16, 100, 1000, 65536]), "stall": [rng.randrange(0, 50), rng.randrange(10, 400)],
             "close_at": rng.choice([None, None, 0, 5, 50]), "fault": fault}
 
 
 def simplify(scn):
+    if scn.get("child_closes_stdout_at") is not None:
+        c = copy.deepcopy(scn); c["child_closes_stdout_at"] = None; yield c
     if scn.get("inbound_batches"):
         c = copy.deepcopy(scn); c["inbound_batches"] = []; yield c
     for i, it in enumerate(scn["items"]):
@@ -145,6 +149,11 @@ def _materialise(it):
             return 12345, 12345  # json.dumps(12345) is valid JSON: it is serialisable, one line
         if w == "none_item":
             return None, None  # json.dumps(None) -> "null": a line "null"; accept either (see oracle)
+        if w == "str_lone_surrogate":
+            # a pre-serialised string that cannot be encoded as UTF-8 (e.g. a surrogate-escaped file name dumped with ensure_ascii=False)
+            return '{"jsonrpc":"2.0","method":"x","params":{"path":"bad\udcffname"}}', None
+        if w == "str_pretty_escaped_surrogate":
+            return '{\n  "jsonrpc": "2.0",\n  "method": "x",\n  "params": {"path": "bad\\udcffname"}\n}', "surrogate-optional"
     o = it["obj"]
     if it.get("big"):
         o = copy.deepcopy(o)
@@ -204,6 +213,10 @@ def execute(scn: dict) -> dict:
                 if scn["read_mode"] == "stall":
                     sim.at(sim.now() + ticks(scn["stall"][0]), child.pause_reading, True)
                     sim.at(sim.now() + ticks(scn["stall"][0] + scn["stall"][1]), child.pause_reading, False)
+                if scn.get("child_closes_stdout_at") is not None:
+                    # a one-way sink server: it closes its stdout early but keeps reading its stdin (not a fault for the outbound side)
+                    sim.at(sim.now() + ticks(scn["child_closes_stdout_at"]), child.close_stdout, tie=2)
+                    sim.probe("child_closed_stdout_keeps_reading")
                 if scn["fault"]:
                     f = scn["fault"]
                     fn = child.close_stdin_child_side if f["kind"] == "child_closes_stdin" else (lambda: child.exit(1))
@@ -286,6 +299,10 @@ def execute(scn: dict) -> dict:
             expected.append(("optional", None))
             saw_unser = True
             continue
+        if exp == "surrogate-optional":
+            expected.append(("optional-any", None))
+            saw_unser = True
+            continue
         if exp is None:
             saw_unser = True
             continue
@@ -336,6 +353,8 @@ def execute(scn: dict) -> dict:
             V("framing", "rejection-line-count", f"{len(scn['inbound_batches'])} server batches arrived but {rejections} -32600 lines reached the child")
     if any(it.get("big") for it in accepted):
         probe("frame_over_64k")
+    if any(it["shape"] == "unser" and "surrogate" in it.get("what", "") for it in accepted):
+        probe("unencodable_string_item")
     if any(it.get("exotic") and it["shape"] != "unser" for it in accepted):
         probe("value_rejected_by_fast_json_backend")
     for ln in lines:
@@ -352,17 +371,23 @@ def execute(scn: dict) -> dict:
             V("framing", "line-not-json", f"line #{i} is not JSON (a raw line break inside a message?): {ln!r:.120}; expected {exp!r:.120}")
             ok = False
             break
-        if mode == "optional":
-            if val is None:
-                i += 1
-                continue
-            # the optional "null" line was not written: compare with the next expected
+        # items that may legitimately produce one line or nothing: consume the line if it is theirs, otherwise skip them
+        matched_optional = False
+        while mode in ("optional", "optional-any"):
+            hit = (val is None) if mode == "optional" else (isinstance(val, dict) and val.get("method") == "x" and "path" in (val.get("params") or {}))
             i += 1
+            if hit:
+                matched_optional = True
+                break
             if i >= len(expected):
                 V("framing", "extra-line", f"unexpected line {ln!r:.120}")
                 ok = False
                 break
             mode, exp = expected[i]
+        if not ok:
+            break
+        if matched_optional:
+            continue
         if val != exp:
             # lost / reordered / altered?
             rest = [e for (_m, e) in expected[i + 1:]]
